@@ -1848,6 +1848,7 @@ class Interp:
         """Assumed contract: havoc modifies, fresh result, assume ensures; may raise."""
         ctx = self.ctx
         self.assumed_used.append(ftxt)
+        self.last_assumed_args = list(args)       # actual arguments, for ghost callbacks
         cenv = self.clause_env(env)
         for i, v in enumerate(args):
             cenv['arg%d' % i] = v
